@@ -59,6 +59,9 @@ func cmdParseFamilies(args []string) {
 	for _, sz := range strings.Split(*sizes, ",") {
 		n := atoiOr(sz, 100)
 		for _, f := range families {
+			if hangs >= 2 {
+				break
+			}
 			id++
 			q := f.gen(n)
 			t0 := time.Now()
